@@ -633,8 +633,23 @@ func fieldsScenario(s *Sim, params map[string]string) {
 		defer nc.Close()
 		nc.SetDeadline(time.Now().Add(10 * time.Second))
 		pc := protocol.NewConn(nc, "sim-fields")
+		// the exported protocol.RoundTrip / ReadResponse also accept a plain
+		// io.ReadWriter (no buffering, no Discard method): a third of the runs
+		// go that way, the others through protocol.Conn
+		bare := t.Intn("cfg", 3) == 0
+		corr := int32(0)
+		roundTrip := func(m protocol.Message, version int16) (protocol.Message, error) {
+			if !bare {
+				return pc.RoundTrip(m)
+			}
+			if p, _ := m.(protocol.PreparedMessage); p != nil {
+				p.Prepare(version)
+			}
+			corr++
+			return protocol.RoundTrip(nc, version, corr, "sim-fields", m)
+		}
 		negotiate := func() (map[protocol.ApiKey]int16, error) {
-			r, err := pc.RoundTrip(new(apiversions.Request))
+			r, err := roundTrip(new(apiversions.Request), 0)
 			if err != nil {
 				return nil, err
 			}
@@ -671,7 +686,7 @@ func fieldsScenario(s *Sim, params map[string]string) {
 		fillGo(t, reflect.ValueOf(req).Elem(), ver, 0)
 		fixupRequest(req)
 		what := fmt.Sprintf("%s v%d", api.Name, ver)
-		res, err := pc.RoundTrip(req)
+		res, err := roundTrip(req, ver)
 		s.Count("ops")
 		if seen == nil {
 			if !s.Failed() {
